@@ -1,0 +1,88 @@
+//! Verification hooks (feature `verif-hooks`): additive instrumentation for the external
+//! model-checking harness. Not compiled unless the feature is enabled; inert unless armed.
+
+use std::sync::atomic::{AtomicI64, AtomicU64, Ordering};
+use std::sync::{Arc, Mutex, RwLock};
+
+use rusqlite::Connection;
+
+use crate::MdkSqliteStorage;
+use crate::error::Error;
+
+/// Number of ticks seen since the last [`reset_ticks`].
+static TICKS: AtomicU64 = AtomicU64::new(0);
+/// When >= 0: the process aborts (no destructors, no `sqlite3_close`) when the tick counter reaches it.
+static ABORT_AT: AtomicI64 = AtomicI64::new(-1);
+
+type Observer = Arc<dyn Fn(u64, &'static str) + Send + Sync>;
+static OBSERVER: RwLock<Option<Observer>> = RwLock::new(None);
+static LABELS: Mutex<Option<Vec<&'static str>>> = Mutex::new(None);
+
+/// A storage step boundary. Called by the backend before each autocommitted statement group
+/// (`with_connection`) and before each statement of the snapshot / restore / relay-replace transactions.
+pub fn tick(label: &'static str) {
+    let k = TICKS.fetch_add(1, Ordering::SeqCst);
+    if let Ok(mut g) = LABELS.lock()
+        && let Some(v) = g.as_mut()
+    {
+        v.push(label);
+    }
+    if let Ok(g) = OBSERVER.read()
+        && let Some(f) = g.as_ref()
+    {
+        f(k, label);
+    }
+    let at = ABORT_AT.load(Ordering::SeqCst);
+    if at >= 0 && k as i64 == at {
+        std::process::abort();
+    }
+}
+
+/// Reset the tick counter to zero.
+pub fn reset_ticks() {
+    TICKS.store(0, Ordering::SeqCst);
+}
+
+/// Current tick count.
+pub fn ticks() -> u64 {
+    TICKS.load(Ordering::SeqCst)
+}
+
+/// Arm process death at tick `k` (counted from the last reset); `None` disarms.
+pub fn abort_at(k: Option<u64>) {
+    ABORT_AT.store(k.map(|v| v as i64).unwrap_or(-1), Ordering::SeqCst);
+}
+
+/// Start / stop recording tick labels; returns what was recorded so far.
+pub fn record_labels(on: bool) -> Vec<&'static str> {
+    let mut g = LABELS.lock().unwrap();
+    let old = g.take().unwrap_or_default();
+    if on {
+        *g = Some(Vec::new());
+    }
+    old
+}
+
+/// Install an observer called at every tick (used for file scans at every storage step).
+pub fn set_observer(f: Option<Observer>) {
+    *OBSERVER.write().unwrap() = f;
+}
+
+impl MdkSqliteStorage {
+    /// Unencrypted in-memory database (same as the crate's test constructor).
+    pub fn verif_new_in_memory() -> Result<Self, Error> {
+        let mut connection = Connection::open_in_memory()?;
+        connection.execute_batch("PRAGMA foreign_keys = ON;")?;
+        crate::migrations::run_migrations(&mut connection)?;
+        Ok(Self {
+            connection: Arc::new(std::sync::Mutex::new(connection)),
+        })
+    }
+
+    /// Run `f` with the raw connection (dumps, PRAGMA reads, rewriting `created_at` of snapshots).
+    /// Does not tick.
+    pub fn verif_with_connection<T>(&self, f: impl FnOnce(&Connection) -> T) -> T {
+        let conn = self.connection.lock().unwrap();
+        f(&conn)
+    }
+}
